@@ -79,7 +79,7 @@ def cases(tier):
             shapes = [(-1, 0), (-1, 1), (-1, 2), (0, 2), (1, 2), (0, 0), (1, 0)] if box else \
                 [(-1, 0), (-1, 1)]
             for shape in shapes:
-                for pres in ((False, True) if (tier == 'thorough' or shape == (-1, 1)) else (False,)):
+                for pres in (False, True):
                     cs.append(Case('%s-%s-b%d-n%d%s' % (name, 'box' if box else 'nobox', shape[0],
                                                         shape[1], '-ctl' if pres else ''),
                                    body, params={'cp': name, 'box': box, 'shape': shape, 'preserve': pres}))
